@@ -192,11 +192,33 @@ def run_case(case):
             except Exception as e:                                              # noqa
                 exc = f"{type(e).__name__}: {e}"[:300]
         post = state_digest()
+        built_first = SpyCircuit._next_index
         records = []
         for name in sorted(os.listdir(d)):
             if name.endswith(".json"):
                 with open(os.path.join(d, name)) as f:
                     records.append(json.load(f))
+        second = None
+        if case.get("again") and exc is None:
+            # a second run of the same simulator in the same process, WITHOUT reseeding: its shots are new noise realisations
+            for name in os.listdir(d):
+                os.unlink(os.path.join(d, name))
+            exc2 = None
+            with contextlib.ExitStack() as st:
+                st.enter_context(contextlib.redirect_stdout(io.StringIO()))
+                if case["mode"] == "par":
+                    st.enter_context(mock.patch.object(multiprocessing, "cpu_count", return_value=case["cpu"]))
+                try:
+                    sim.run(t_qiskit_circ=circ, qubits_layout=list(range(nq)), psi0=psi0, shots=S, device_param=device_param(nq), nqubit=nq)
+                except Exception as e:                                          # noqa
+                    exc2 = f"{type(e).__name__}: {e}"[:300]
+            rec2 = []
+            for name in sorted(os.listdir(d)):
+                if name.endswith(".json"):
+                    with open(os.path.join(d, name)) as f:
+                        r = json.load(f)
+                        rec2.append({"shot": r["shot"], "start": r["start"], "peek": r["peek"], "probs": r["probs"]})
+            second = {"exception": exc2, "records": rec2}
         out = buf.getvalue().splitlines()
         hdr = {}
         m = [HDR[i].match(out[i]) if i < len(out) else None for i in range(3)]
@@ -204,8 +226,8 @@ def run_case(case):
             hdr = {"cpu": int(m[0].group(1)), "n_processes": int(m[1].group(1)),
                    "S": int(m[2].group(1)), "chunksize": int(m[2].group(2))}
         return {"exception": exc, "result": None if result is None else {k: float(v).hex() for k, v in result.items()},
-                "built": SpyCircuit._next_index, "parent_pre": pre, "parent_post": post, "parent_pid": os.getpid(),
-                "records": records, "hdr": hdr, "start_method": multiprocessing.get_start_method(),
+                "built": built_first, "parent_pre": pre, "parent_post": post, "parent_pid": os.getpid(),
+                "records": records, "second": second, "hdr": hdr, "start_method": multiprocessing.get_start_method(),
                 "wall": round(time.time() - t0, 3)}
     finally:
         os.environ.pop(TRACE_ENV, None)
